@@ -198,7 +198,8 @@ def _rows_case(n, rpc, H, L, rows):
         A.parse_data, A.np = _A_ORIG
     ok = len(out) == len(rows)
     for part, r in zip(out, rows):
-        ok = ok & (part.lo == br[r][0]) & (part.hi == br[r][1])
+        # the bytes of THIS array's file on THIS filesystem (not of a same-named file seen earlier in the process)
+        ok = ok & (part.lo == br[r][0]) & (part.hi == br[r][1]) & (part.tag == "IMG") & (getattr(part, "origin", None) == fs.uid)
     return ok & _io_ok(fs, arr, n, L, rows)
 
 
@@ -231,7 +232,7 @@ class Mat:
         rows = self.rows[rk] if isinstance(rk, slice) else [self.rows[rk]]
         cols = list(range(self.m)[ck]) if isinstance(ck, slice) else [range(self.m)[ck]]
         shape = ((len(rows),) if isinstance(rk, slice) else ()) + ((len(cols),) if isinstance(ck, slice) else ())
-        return shape, [[r.lo + c * BPS for c in cols] for r in rows]
+        return shape, [[r.lo + c * BPS for c in cols] for r in rows], [getattr(r, "origin", None) for r in rows]
 
 
 class Empty:
@@ -253,7 +254,8 @@ def _basic_case(n, m, rpc, H, rk, ck):
         return (len(rsel) == 0) & (got.shape == shape)
     if not isinstance(got, tuple):
         return False
-    return (got[0] == shape) & (got[1] == want) & _io_ok(fs, arr, n, L, rsel)
+    fresh_bytes = all(o == fs.uid for o in got[2])  # read from this array's own filesystem, not remembered from an earlier one
+    return (got[0] == shape) & (got[1] == want) & fresh_bytes & _io_ok(fs, arr, n, L, rsel)
 
 
 def basic_slice_ok(start: int, stop: int, H: int) -> bool:
